@@ -609,6 +609,18 @@ class Walker:
                 self.bind(n['pat'], row, pc)
                 self.ev(n['body'], And(pc, ic))
             return ('unit',), ic
+        if isinstance(tab, tuple) and tab and tab[0] in ('rows', 'union') and not self._body_breaks(n['body']):
+            for c_, item in tab[1:]:
+                if tab[0] == 'rows':
+                    self.bind(n['pat'], item, And(pc, c_))
+                    self.ev(n['body'], And(pc, ic, c_))
+                else:
+                    e_, f_ = self.elem_of(item, None, And(pc, c_))
+                    self.loops.append(('for', n.get('hid'), item, n))
+                    self.bind(n['pat'], e_, And(pc, c_))
+                    self.ev(n['body'], And(pc, ic, c_, f_))
+                    self.loops.pop()
+            return ('unit',), ic
         elem, facts = self.elem_of(iv, n['iter'], pc)
         self.loops.append(('for', n.get('hid'), iv, n))
         m = self.bind(n['pat'], elem, pc)
@@ -1239,6 +1251,46 @@ class Walker:
             return ('chunks', recv, args[1])
         if name in ('iter', 'iter_mut', 'into_iter') and _is_map_type(recv_ty):
             return ('hashmap', recv)
+        # ---- pipelines over a small literal table: `[(A, &x.a), (B, &x.b)].iter().filter(..).filter_map(..).flatten().collect()`
+        #      are evaluated row by row ('rows': conditional rows; 'union': conditional member collections)
+        def _rows_of(t):
+            if isinstance(t, tuple) and t and t[0] == 'array' and 1 <= len(t) - 1 <= 12:
+                return [(T, r) for r in t[1:]]
+            if isinstance(t, tuple) and t and t[0] == 'rows':
+                return list(t[1:])
+            return None
+        if name in ('filter', 'map', 'filter_map') and len(args) == 2 and cl[1] and _rows_of(recv) is not None:
+            out = []
+            for c_, row in _rows_of(recv):
+                cv, _ = self.apply_closure(cl[1], [row], And(pc, c_))
+                if name == 'filter':
+                    out.append((And(c_, as_formula(cv)), row))
+                elif name == 'map':
+                    out.append((c_, cv))
+                else:
+                    out.append((And(c_, is_variant(cv, 'Some')), payload(cv)))
+            return ('rows',) + tuple(out)
+        if name == 'flatten' and len(args) == 1 and isinstance(recv, tuple) and recv[:1] == ('rows',):
+            return ('union',) + tuple(recv[1:])
+        if name == 'collect' and isinstance(recv, tuple) and recv[:1] == ('union',):
+            # the collected set is an accumulator filled by one `extend` per member collection
+            loc = ('local', '<collected>', self._lid(('collect', n.get('hid', id(n)))))
+            for c_, coll in recv[1:]:
+                rec = dict(method='extend', value=coll, pc=And(pc, c_), loops=tuple(self.loops), node=n)
+                self.fr.local_colls.setdefault(loc[2], []).append(rec)
+                self.emit('local_mut', n, And(pc, c_), local=loc, method='extend', args=[coll])
+            return loc
+        if name in ('for_each', 'try_for_each') and len(args) == 2 and cl[1] and isinstance(recv, tuple) and recv[:1] in (('rows',), ('union',)):
+            for c_, item in recv[1:]:
+                if recv[0] == 'rows':
+                    self.apply_closure(cl[1], [item], And(pc, c_))
+                else:
+                    e, facts = self.elem_of(item, None, And(pc, c_))
+                    self.loops.append(('for', n.get('hid'), item, n))
+                    self.apply_closure(cl[1], [e], And(pc, c_, facts))
+                    self.loops.pop()
+            self.emit('call', n, pc, **data)
+            return ('call', path, recv) if name == 'try_for_each' else ('unit',)
         if name in ('filter', 'map', 'filter_map') and len(args) == 2 and cl[1] and not _is_opt(recv_ty):
             # lazy adaptors: the closure body is walked once, now (its events belong to the pipeline),
             # and the resulting element value / facts are cached in the term
